@@ -22,7 +22,7 @@ pub fn def() -> CheckDef {
         thorough_runs: 1_000_000,
         run,
         rule: "one run = random ClientAssociationOptions (1-6, rarely 130, contexts over 3 abstract and 5 transfer syntaxes, maximum \
-               PDU length from {0, 1018, small, default, 65536, huge}, role selection, extended negotiation, user identity, \
+               PDU length from {0, 1018, 1019, default, 32762, 65536, 262138, 262139, 300000, huge}, role selection, extended negotiation, user identity, \
                strict on/off) x random ServerAssociationOptions (as in C28), both REAL nodes (requestor: establish / \
                establish_async through connect(); acceptor: establish / establish_async) in the four sync/async pairings; after \
                establishment each side sends a seed-drawn list of P-DATA PDUs with lengths at and around the peer's maximum \
@@ -35,7 +35,7 @@ pub fn def() -> CheckDef {
         real: &["ClientAssociationOptions::establish / establish_async (tcp_connection, establish_impl)", "ServerAssociationOptions::establish / establish_async", "Client/ServerAssociation and async twins: send, receive, send_pdata, release", "std and tokio TcpStream, mio, tokio current-thread runtime"],
         stub: &["TCP/IP (simulated byte queues, connect() interposed)", "application scripts", "negotiation model, independent PS3.8 parser (wire monitor)"],
         assumptions: &["no connection faults here (those are C30/C34)", "a local maximum of 0 makes the acceptor refuse every PDU including the request; such runs end at establishment and are counted by a probe"],
-        required_probes: &["established", "none-accepted", "over-long-send-refused", "send-at-limit", "pdata-stream", "max-zero-advertised"],
+        required_probes: &["established", "none-accepted", "over-long-send-refused", "send-at-limit", "pdata-stream", "max-zero-advertised", "max-above-large-pdu-size"],
         net: true,
     }
 }
@@ -69,7 +69,7 @@ fn gen_cli(w: &mut Tape, acc: &AccCfg) -> CliCfg {
     }
     CliCfg {
         contexts,
-        max_pdu: [16384u32, 0, 1018, 1019, 32762, 65536, 0xFFFF_FFF8][w.below(7) as usize],
+        max_pdu: [16384u32, 0, 1018, 1019, 32762, 65536, 0xFFFF_FFF8, 262_138, 262_139, 300_000][w.below(10) as usize],
         strict: w.chance(1, 2),
         called: if w.chance(3, 4) { acc.ae_title } else { "OTHER" },
         role: w.chance(1, 4),
@@ -372,7 +372,7 @@ fn run(cfgi: usize, w: &mut Tape, env: &EnvRef) -> RunResult {
     let req_async = cfgi == 2 || cfgi == 3;
     let acc_async = cfgi == 1 || cfgi == 3;
     let mut acc = gen_cfg(w);
-    acc.max_pdu = [16384u32, 1018, 1019, 32762, 65536, 0, 0xFFFF_FFF8][w.below(7) as usize];
+    acc.max_pdu = [16384u32, 1018, 1019, 32762, 65536, 0, 0xFFFF_FFF8, 262_138, 262_139, 300_000][w.below(10) as usize];
     let cli = gen_cli(w, &acc);
     let req_script = gen_script(w, !req_async);
     let acc_script = gen_script(w, !acc_async);
@@ -468,6 +468,13 @@ fn run(cfgi: usize, w: &mut Tape, env: &EnvRef) -> RunResult {
             // each other's maximum
             check!(r.peer_max as u64 == eff_max(acc.max_pdu), "max-pdu", "c29:requestor-view-of-acceptor-max", "requestor thinks the acceptor admits {} but it advertised {}", r.peer_max, acc.max_pdu);
             check!(a.peer_max as u64 == eff_max(cli.max_pdu), "max-pdu", "c29:acceptor-view-of-requestor-max", "acceptor thinks the requestor admits {} but it advertised {}", a.peer_max, cli.max_pdu);
+            // each side's own maximum is the configured one (documented clamp to the largest admissible value)
+            let clamp = |v: u32| v.min((u32::MAX & !1) - 6);
+            check!(r.local_max == clamp(cli.max_pdu), "max-pdu", "c29:requestor-local-max", "requestor configured with maximum {} holds {} as its own maximum", cli.max_pdu, r.local_max);
+            check!(a.local_max == clamp(acc.max_pdu), "max-pdu", "c29:acceptor-local-max", "acceptor configured with maximum {} holds {} as its own maximum", acc.max_pdu, a.local_max);
+            if cli.max_pdu > 262_138 || acc.max_pdu > 262_138 {
+                env.probe("max-above-large-pdu-size");
+            }
         }
     }
     // PDU limits on the wire after establishment
@@ -514,6 +521,12 @@ fn run(cfgi: usize, w: &mut Tape, env: &EnvRef) -> RunResult {
         }
     }
     if r.established && a.established {
+        // everything a side put on the wire fits the peer's maximum (checked above), so the peer receives it all
+        for (ep, res, who) in [(conn.a, &r, "requestor"), (conn.b, &a, "acceptor")] {
+            let (pdus, _) = wire_pdus(&end.eps[ep]);
+            let n = pdus.iter().filter(|p| matches!(p, Ok(RPdu::PData(_)))).count();
+            check!(res.received_pdata == n, "fitting-pdu-received", format!("c29:{}-missed-pdata", who), "{} received {} P-DATA PDUs, the peer put {} fitting ones on the wire", who, res.received_pdata, n);
+        }
         check!(r.release_ok == Some(true), "release", "c29:release-failed", "release after a clean exchange failed");
     }
     Ok(())
